@@ -9,8 +9,10 @@ open H2.Gen H2.Conn
 
 /-! ### dispatch, `_receive_frame`, the loop, `receive_data` -/
 
-/-- what the frame buffer hands to the dispatcher: a PING payload has exactly 8 bytes -/
-def RFrameOk (rf : RFrame) : Prop := ∀ a p, rf.frame = .ping a p → p.length = 8
+/-- what the frame buffer hands to the dispatcher: a PING payload has exactly 8 bytes, a WINDOW_UPDATE increment is
+    at least 1 (hyperframe rejects the others when it parses the body) -/
+def RFrameOk (rf : RFrame) : Prop :=
+  (∀ a p, rf.frame = .ping a p → p.length = 8) ∧ (∀ sid n, rf.frame = .windowUpdate sid n → 1 ≤ n)
 
 theorem hspec_dispatch (rf : RFrame) (c : Conn) (hwf : WF c) (hrf : RFrameOk rf) : wp (dispatch rf) HQ CE c := by
   unfold dispatch
@@ -20,7 +22,7 @@ theorem hspec_dispatch (rf : RFrame) (c : Conn) (hwf : WF c) (hrf : RFrameOk rf)
   · exact hspec_settings _ _ c hwf
   · exact hspec_data _ _ _ _ c hwf
   · exact hspec_windowUpdate _ _ c hwf
-  · rename_i ack payload heq; exact hspec_ping _ _ c hwf (hrf _ _ heq)
+  · rename_i ack payload heq; exact hspec_ping _ _ c hwf (hrf.1 _ _ heq)
   · exact hspec_rstStream _ _ c hwf
   · exact hspec_priority _ _ c hwf
   · exact hspec_goaway _ _ _ c hwf
@@ -101,7 +103,8 @@ theorem hspec_receiveFrame (rf : RFrame) (c : Conn) (hwf : WF c) (hrf : RFrameOk
 
 def NextErr (e : Exc) : Prop := GoodExc e ∨ e = .py (.Other "InvalidPaddingError")
 
-theorem parseBody_ok (h : FrameHeader) (d : Bytes) (rf : RFrame) (hp : parseBody h d = .ok rf) : RFrameOk rf := by
+theorem parseBody_ping (h : FrameHeader) (d : Bytes) (rf : RFrame) (hp : parseBody h d = .ok rf) :
+    ∀ a p, rf.frame = .ping a p → p.length = 8 := by
   intro a p hf
   unfold parseBody at hp
   split at hp <;> (try simp only at hp) <;> (repeat' (split at hp)) <;> first
@@ -112,6 +115,21 @@ theorem parseBody_ok (h : FrameHeader) (d : Bytes) (rf : RFrame) (hp : parseBody
        obtain ⟨_, h2⟩ := hf
        subst h2
        simp_all)
+
+theorem parseBody_ok (h : FrameHeader) (d : Bytes) (rf : RFrame) (hp : parseBody h d = .ok rf) : RFrameOk rf := by
+  refine ⟨?_, ?_⟩
+  · exact parseBody_ping h d rf hp
+  · intro sid n hf
+    unfold parseBody at hp
+    split at hp <;> (try simp only at hp) <;> (repeat' (split at hp)) <;> first
+      | (simp at hp; done)
+      | (injection hp with hp; subst hp; simp at hf; done)
+      | (injection hp with hp; subst hp
+         simp only [RFrame.mk.injEq, Frame.windowUpdate.injEq] at hf
+         obtain ⟨_, h2⟩ := hf
+         subst h2
+         simp_all
+         omega)
 
 
 theorem plain_good {e : Exc} (h : Plain e) : GoodExc e := h.1
@@ -136,7 +154,7 @@ theorem stepHeaderBuffer_ok (hb : List Frame) (f : RFrame) (hf : RFrameOk f) (hh
     all_goals (repeat' split at hg)
     all_goals first
       | (simp at hg; done)
-      | (simp only [Except.ok.injEq, Option.some.injEq] at hg; subst hg; first | exact hf | (intro a p hp; simp at hp; done))
+      | (simp only [Except.ok.injEq, Option.some.injEq] at hg; subst hg; first | exact hf | (constructor <;> (intro a p hp; simp at hp; done)))
       | skip
     all_goals (rename_i first _ _ _ _ _ _ _ _ hno1 hno2 _; cases first <;> simp [HbOk] at hh <;> simp_all)
   · intro e he
